@@ -28,6 +28,7 @@ import (
 	"fmt"
 	"os"
 	"path/filepath"
+	"strings"
 	"sync"
 
 	"github.com/mna/pigeon/ast"
@@ -106,6 +107,7 @@ func main() {
 	n := flag.Int("n", 1000, "number of grammars")
 	pigeon := flag.String("pigeon", "/verif/build/bin/pigeon-verif", "pigeon binary built with -tags verif")
 	includeKnown := flag.Bool("include-known", false, "lift the known-defect avoidance")
+	lift := flag.String("lift", "", "lift single avoidances: comma-separated list of "+strings.Join(pvpeg.AvoidNames(), ","))
 	out := flag.String("out", "/tmp/pvt.pvboot.out", "directory for failing inputs")
 	jobs := flag.Int("j", 16, "parallel workers (one server process each)")
 	repo := flag.String("repo", "/repo", "repository whose grammar/*.peg files are compared too")
@@ -114,9 +116,10 @@ func main() {
 		fmt.Fprintln(os.Stderr, "usage: pvboot [-seed S] [-n N] [-pigeon BIN] [-include-known] [-out DIR] [-j J] [-repo DIR]")
 		os.Exit(2)
 	}
-	av := pvpeg.Avoid{}
-	if *includeKnown {
-		av = pvpeg.IncludeKnown()
+	av, err := pvpeg.ParseAvoid(*includeKnown, *lift)
+	if err != nil {
+		fmt.Fprintln(os.Stderr, "pvboot:", err)
+		os.Exit(2)
 	}
 	rep := pvpeg.NewReport("pvboot", *seed, *out)
 	items := make([]*item, *n)
